@@ -211,6 +211,23 @@ def check_case(ctx: Ctx, case: dict):
                 break
 
 
+# legal identifiers that coincide with, or extend, a terminal of the grammar / a name sympy or the printers know
+NEAR_NAMES = ["e", "E", "I", "S", "N", "O", "Q", "d", "e1", "E1", "exp1", "log2x", "pi2", "sin_", "Abs1", "t1", "time2", "Lt1", "And_", "ln2",
+              "Mod3", "floor_", "dt1", "x_dt", "dx", "oo", "zoo", "nan1", "inf1", "gamma", "beta", "lambda1", "re", "im", "Eq1", "NOT", "or_", "Pi", "PI"]
+
+
+def names_extra(ctx: Ctx):
+    """a small model whose states, parameters and intermediates carry such names (each used in a right-hand side);
+    the pool is walked through in order, six names per model, so that a quick run sees every name"""
+    k = ctx.stats.get("near_names_models", 0)
+    ctx.stats["near_names_models"] = k + 1
+    n = len(NEAR_NAMES)
+    a, a2, b, b2, c, c2 = (NEAR_NAMES[(6 * k + j + 7 * ctx.seed) % n] for j in range(6))
+    text = (f"states({a}=0.5, {a2}=-0.25)\nparameters({b}=0.75, {b2}=2)\n{c} = {a}*{b} + {b2}\n{c2} = {c} - {a2}/(1 + {b2}*{b2})\n"
+            f"d{a}_dt = {c} - {a}*{b}**2 + {c2}\nd{a2}_dt = {c}/(2 + cos({a})) - {a2}*{b} + exp(-{a}*{a})*{c2}\n")
+    return {"text": text}
+
+
 def run(ctx: Ctx):
     n = ctx.n(70, 2500)
     for k in range(n):
@@ -221,7 +238,9 @@ def run(ctx: Ctx):
             cfg.depth = 5
         if k % 10 == 9:
             cfg.expr.extreme = True        # literals of astronomical size (the known findings C01/numpy/extreme-constant/*)
-        if k % 9 in (4, 7):
+        if k % 9 == 2:
+            case = names_extra(ctx)
+        elif k % 9 in (4, 7):
             # crafted: conditionals and relations as operands inside the branches of a top-level conditional
             from . import backends as _be
             case = _be.cond_extra(ctx)
